@@ -133,7 +133,9 @@ CLAIMED.update({
 
 CLAIMED.update({
     "C07": {
-        "text": "Model/PatSpec.v states the documented meaning of a pattern text (`documented`) without reference to the loader; "
+        "text": "The pattern dispatch chain of String::into_identifier is REGENERATED from src/identifier.rs on every run "
+                "(Model/GeneratedIdent.v) and ident_table_is_into_identifier proves it equal to the model's into_identifier. "
+                "Model/PatSpec.v states the documented meaning of a pattern text (`documented`) without reference to the loader; "
                 "single_pattern_exact proves that for EVERY pattern text and EVERY document string the predicate the loader builds "
                 "(plain search, or one-needle case-insensitive automaton, or regex) is true exactly when the documented relation "
                 "holds; batched_list_exact that a list of patterns is true exactly when some member is, however the parser "
